@@ -38,13 +38,15 @@ class DiskSeam:
     and, when scripted, kills the run at the k-th one - either before the file exists (lost write) or after a prefix of it
     reached the disk (torn write)."""
 
-    def __init__(self, out_dir, crash_at=None, torn=None):
+    def __init__(self, out_dir, crash_at=None, torn=None, enospc_at=None):
         import builtins
 
         self._open = builtins.open
         self.out_dir = str(out_dir)
         self.crash_at = crash_at
         self.torn = torn
+        self.enospc_at = enospc_at  # fault kind disk_full: the k-th write fails once with OSError(ENOSPC); later writes succeed
+        self.enospc_fired = False
         self.writes = 0
         self.crashed_on = None
         self.written = []  # paths (relative) this run opened for writing and was not killed on
@@ -53,6 +55,11 @@ class DiskSeam:
         path = str(file)
         if any(c in mode for c in "wax+") and path.startswith(self.out_dir):
             self.writes += 1
+            if self.enospc_at is not None and self.writes == self.enospc_at and not self.enospc_fired:
+                self.enospc_fired = True
+                import errno
+
+                raise OSError(errno.ENOSPC, "No space left on device (injected)", path)
             if not (self.crash_at is not None and self.writes == self.crash_at):
                 self.written.append(os.path.relpath(path, self.out_dir))
             if self.crash_at is not None and self.writes == self.crash_at:
